@@ -15,7 +15,9 @@
 //   * from env/add_path_shim.vs: lemma_first_pos (as lemma_rd_first_pos).
 // The last three sections (CLOSURE) hold the induction step of C10 / C09: new vocabulary (rd_listing_exact, rd_effect, rd_closed,
 // dd_dummy_listing_exact, dd_closed, sd_closed) and proved lemmas; they use the closure / counting lemmas `spcl_*` of
-// env/spawn_vehicle_shim.vs.
+// env/spawn_vehicle_shim.vs.  rd_listing_exact(result) is no premise any more: block LISTING-LEMMAS (lemma_listing_frame / _lose,
+// lemma_sched_vehicles_lose, lemma_types_listed; same text in env/remove_segment_shim.vs) + lemma_rd_listing_exact /
+// lemma_dd_listing_exact prove it from the definition of sched_vehicles (env/schedule_shim.vs) and the effect clauses.
 
 // =====================================================================================================
 // copied from env/remove_segment_shim.vs
@@ -719,18 +721,210 @@ pub proof fn lemma_spawn_pre_without_dummy(s: &Schedule, d: VehicleIdx, m: &Sche
 // this file).
 //
 // sched_ok (env/schedule_shim.vs) speaks about `sched_vehicles(s)`, the order in which Schedule::vehicles_iter_all yields the
-// vehicles: an UNINTERPRETED function of the whole schedule value (A-iter), so nothing is known about the listing of a NEW
-// schedule value -- not even for delete_dummy, which leaves every component the listing is computed from alone.  The two
-// conjuncts of sched_ok that say what the listing IS (duplicate-free, lists exactly the vehicles with a tour) are therefore
-// the PREMISE `rd_listing_exact(result)` of the closure of sched_ok / rs_ok; everything else in sched_ok (network, number of
-// vehicles, vehicle_ok for every vehicle, the cost sums) is proved from the effect clauses.
+// vehicles.  It is DEFINED there (it used to be an uninterpreted function of the schedule value): the grouped id lists of the
+// network's vehicle types, concatenated in type order.  So the two conjuncts of sched_ok that say what the listing IS (duplicate-free,
+// lists exactly the vehicles with a tour; `rd_listing_exact`, formerly the PREMISE of the closure of sched_ok / rs_ok) are PROVED for
+// the result from the effect clauses: replace_vehicle_by_dummy takes one occurrence of the id out of the list of the vehicle's type
+// and leaves the other lists and the network alone (vehicle_gone, others_untouched: lemma_rd_listing_exact); delete_dummy leaves
+// every component the listing is computed from alone (same_but_dummies: lemma_dd_listing_exact).  Everything else in sched_ok
+// (network, number of vehicles, vehicle_ok for every vehicle, the cost sums) is proved from the effect clauses as before.
 // =====================================================================================================
-/// the two conjuncts of sched_ok that characterise the uninterpreted listing sched_vehicles: it is duplicate-free and lists
-/// exactly the vehicles that have a tour
+/// the two conjuncts of sched_ok that characterise the listing sched_vehicles: it is duplicate-free and lists exactly the
+/// vehicles that have a tour
 pub open spec fn rd_listing_exact(s: &Schedule) -> bool {
     let vs = sched_vehicles(s);
     &&& vs.no_duplicates()
     &&& forall|v: VehicleIdx| #[trigger] vs.contains(v) <==> s.tours@.contains_key(v)
+}
+
+// ---- the vehicle listing as a function of the grouped id lists ---------------------------------------------------
+// sched_vehicles(s) is DEFINED (env/schedule_shim.vs): listing_of(vehicle types of the network, grouped id lists) = the id lists of
+// the network's vehicle types, one after the other.  [LISTING-LEMMAS: same text in env/remove_segment_shim.vs and env/dummy_ops_shim.vs]
+/// the listing only depends on the id lists of the listed types
+pub proof fn lemma_listing_frame(types: Seq<VehicleTypeIdx>, a: Map<VehicleTypeIdx, Vec<VehicleIdx>>, b: Map<VehicleTypeIdx, Vec<VehicleIdx>>)
+    requires forall|i: int| 0 <= i < types.len() ==> a[#[trigger] types[i]]@ == b[types[i]]@,
+    ensures listing_of(types, a) == listing_of(types, b),
+    decreases types.len(),
+{
+    if types.len() > 0 {
+        let d = types.drop_last();
+        assert forall|i: int| 0 <= i < d.len() implies a[#[trigger] d[i]]@ == b[d[i]]@ by { assert(d[i] == types[i]); }
+        lemma_listing_frame(d, a, b);
+        assert(types.last() == types[types.len() - 1]);
+    }
+}
+/// taking one position out of a concatenation takes it out of the part it lies in
+pub proof fn lemma_concat_remove(a: Seq<VehicleIdx>, b: Seq<VehicleIdx>, p: int)
+    requires 0 <= p < a.len() + b.len(),
+    ensures
+        p < a.len() ==> (a + b).remove(p) == a.remove(p) + b && (a + b)[p] == a[p],
+        p >= a.len() ==> (a + b).remove(p) == a + b.remove(p - a.len()) && (a + b)[p] == b[p - a.len()],
+{
+    if p < a.len() { assert((a + b).remove(p) =~= a.remove(p) + b); }
+    else { assert((a + b).remove(p) =~= a + b.remove(p - a.len())); }
+}
+/// if the id list of ONE listed type loses one occurrence of v (the type list is duplicate-free: the type is listed once) and the
+/// lists of the other listed types are the same, the listing loses one occurrence of v (the other entries keep their order)
+pub proof fn lemma_listing_lose(types: Seq<VehicleTypeIdx>, g0: Map<VehicleTypeIdx, Vec<VehicleIdx>>, g1: Map<VehicleTypeIdx, Vec<VehicleIdx>>, ty: VehicleTypeIdx, v: VehicleIdx)
+    requires
+        types.no_duplicates(), types.contains(ty),
+        forall|i: int| 0 <= i < types.len() && types[i] != ty ==> g1[#[trigger] types[i]]@ == g0[types[i]]@,
+        ids_lose(g0[ty]@, g1[ty]@, v),
+    ensures ids_lose(listing_of(types, g0), listing_of(types, g1), v),
+    decreases types.len(),
+{
+    let n = types.len() as int;
+    let k = choose|k: int| 0 <= k < types.len() && types[k] == ty;
+    let d = types.drop_last();
+    let last = types[n - 1];
+    assert(types.last() == last);
+    let a0 = listing_of(d, g0);
+    let a1 = listing_of(d, g1);
+    assert(listing_of(types, g0) == a0 + g0[last]@);
+    assert(listing_of(types, g1) == a1 + g1[last]@);
+    if last == ty {
+        // the type is the last one listed: the lists of the types before it are the same
+        assert forall|i: int| 0 <= i < d.len() implies g0[#[trigger] d[i]]@ == g1[d[i]]@ by {
+            assert(d[i] == types[i]);
+            assert(types[i] != types[n - 1]);
+        }
+        lemma_listing_frame(d, g0, g1);
+        let l0 = g0[ty]@;
+        let p = choose|p: int| 0 <= p < l0.len() && l0[p] == v && g1[ty]@ == #[trigger] l0.remove(p);
+        lemma_concat_remove(a0, l0, a0.len() + p);
+        assert(listing_of(types, g1) == (a0 + l0).remove(a0.len() + p));
+    } else {
+        // the type is listed before the last one, whose list is the same
+        assert(k < n - 1);
+        assert(d[k] == ty);
+        assert forall|i: int, j: int| 0 <= i < d.len() && 0 <= j < d.len() && i != j implies d[i] != d[j] by {
+            assert(d[i] == types[i] && d[j] == types[j]);
+        }
+        assert forall|i: int| 0 <= i < d.len() && d[i] != ty implies g1[#[trigger] d[i]]@ == g0[d[i]]@ by { assert(d[i] == types[i]); }
+        lemma_listing_lose(d, g0, g1, ty, v);
+        let q = choose|q: int| 0 <= q < a0.len() && a0[q] == v && a1 == #[trigger] a0.remove(q);
+        let l = g0[last]@;
+        assert(g1[types[n - 1]]@ == l);
+        lemma_concat_remove(a0, l, q);
+        assert(listing_of(types, g1) == (a0 + l).remove(q));
+    }
+}
+/// ... for two schedules over the same vehicle types: the id list of type `ty` loses one occurrence of v, the other lists are the same
+pub proof fn lemma_sched_vehicles_lose(s: &Schedule, s1: &Schedule, ty: VehicleTypeIdx, v: VehicleIdx)
+    requires
+        s.network.vehicle_types.ids_sorted@.no_duplicates(),
+        s.network.vehicle_types.ids_sorted@.contains(ty),
+        s1.network.vehicle_types.ids_sorted@ == s.network.vehicle_types.ids_sorted@,
+        s1.vehicle_ids_grouped_and_sorted@ == s.vehicle_ids_grouped_and_sorted@.insert(ty, s1.vehicle_ids_grouped_and_sorted@[ty]),
+        ids_lose(s.vehicle_ids_grouped_and_sorted@[ty]@, s1.vehicle_ids_grouped_and_sorted@[ty]@, v),
+    ensures ids_lose(sched_vehicles(s), sched_vehicles(s1), v),
+{
+    hide(ids_lose);
+    reveal(sched_vehicles);
+    let types = s.network.vehicle_types.ids_sorted@;
+    let g0 = s.vehicle_ids_grouped_and_sorted@;
+    let g1 = s1.vehicle_ids_grouped_and_sorted@;
+    assert forall|i: int| 0 <= i < types.len() && types[i] != ty implies g1[#[trigger] types[i]]@ == g0[types[i]]@ by {}
+    lemma_listing_lose(types, g0, g1, ty, v);
+}
+/// C10 (transitions_ok: one rotation-cycle structure per vehicle type of the network, the type list is duplicate-free): a type that
+/// has a rotation-cycle structure is listed, once
+pub proof fn lemma_types_listed(s: &Schedule, ty: VehicleTypeIdx)
+    requires s.transitions_ok(), s.next_period_transitions@.contains_key(ty),
+    ensures s.network.vehicle_types.ids_sorted@.no_duplicates(), s.network.vehicle_types.ids_sorted@.contains(ty),
+{
+    hide(TView::wf);
+    assert(sched_types(s) == s.network.vehicle_types.ids_sorted@);
+}
+// [end of LISTING-LEMMAS]
+
+/// rs_ok, the clauses the listing argument builds on: the listing of the schedule is exact (sched_ok), one rotation-cycle structure
+/// per vehicle type of the network (transitions_ok)
+pub proof fn lemma_rd_listing_old(s: &Schedule)
+    requires s.rs_ok(),
+    ensures rd_listing_exact(s), s.transitions_ok(),
+{
+    hide(Schedule::vehicle_ok);
+    hide(Schedule::formations_ok);
+    hide(Schedule::transitions_ok);
+    hide(ids_valid);
+    hide(usage_exact);
+    hide(depots_ok);
+}
+/// rd_effect, the clauses about the components the listing is computed from (network, grouped id lists) and about the tours
+pub proof fn lemma_rd_effect_listing(s: &Schedule, v: VehicleIdx, s1: &Schedule)
+    requires rd_effect(s, v, s1),
+    ensures
+        s.rs_ok(), s.vehicles@.contains_key(v),
+        s1.network == s.network, s1.tours@ == s.tours@.remove(v),
+        s1.vehicle_ids_grouped_and_sorted@ == s.vehicle_ids_grouped_and_sorted@.insert(s.type_of(v), s1.vehicle_ids_grouped_and_sorted@[s.type_of(v)]),
+        ids_lose(s.vehicle_ids_grouped_and_sorted@[s.type_of(v)]@, s1.vehicle_ids_grouped_and_sorted@[s.type_of(v)]@, v),
+{
+    hide(Schedule::rs_ok);
+    hide(Schedule::listed_ok);
+    hide(Schedule::trips_in_new_dummy);
+    hide(Schedule::no_new_dummy);
+    hide(Schedule::rd_formations_follow);
+    hide(Schedule::rd_transitions_follow);
+    hide(usage_exact);
+    hide(ids_valid);
+    hide(ids_lose);
+    hide(sorted_cmp);
+}
+/// a duplicate-free listing of exactly the vehicles with a tour that loses (the one occurrence of) v lists exactly the vehicles
+/// that still have a tour
+pub proof fn lemma_rd_listing_step(vs: Seq<VehicleIdx>, vs1: Seq<VehicleIdx>, tours0: TourMap, tours1: TourMap, v: VehicleIdx)
+    requires
+        vs.no_duplicates(), forall|u: VehicleIdx| #[trigger] vs.contains(u) <==> tours0.contains_key(u),
+        ids_lose(vs, vs1, v), tours1 == tours0.remove(v),
+    ensures
+        vs1.no_duplicates(), forall|u: VehicleIdx| #[trigger] vs1.contains(u) <==> tours1.contains_key(u),
+{
+    let p = choose|p: int| 0 <= p < vs.len() && vs[p] == v && vs1 == #[trigger] vs.remove(p);
+    lemma_remove_contains(vs, p);
+    assert forall|u: VehicleIdx| #[trigger] vs1.contains(u) <==> tours1.contains_key(u) by {
+        assert(vs.contains(u) <==> tours0.contains_key(u));
+    }
+}
+/// (1) the listing of the result of replace_vehicle_by_dummy is exact (formerly the premise rd_listing_exact(result)): the network
+/// is the same, the id list of the vehicle's type -- a listed type: it has a rotation-cycle structure (vehicle_ok); listed once:
+/// transitions_ok says the type list is duplicate-free -- loses one occurrence of the id, the other lists are the same, so the
+/// listing loses one occurrence of the id; it was duplicate-free and listed exactly the vehicles with a tour (sched_ok)
+pub proof fn lemma_rd_listing_exact(s: &Schedule, v: VehicleIdx, s1: &Schedule)
+    requires rd_effect(s, v, s1),
+    ensures rd_listing_exact(s1), ids_lose(sched_vehicles(s), sched_vehicles(s1), v),
+{
+    hide(rd_effect);
+    hide(Schedule::rs_ok);
+    hide(Schedule::transitions_ok);
+    hide(Schedule::formations_ok);
+    hide(Schedule::real_tour_ok);
+    hide(ids_valid);
+    hide(usage_exact_for);
+    hide(ids_lose);
+    hide(sorted_cmp);
+    hide(tour_wf);
+    lemma_rd_effect_listing(s, v, s1);
+    lemma_rd_listing_old(s);
+    lemma_rd_provider(s, v);
+    let ty = s.type_of(v);
+    lemma_types_listed(s, ty);
+    assert(s1.network.vehicle_types.ids_sorted@ == s.network.vehicle_types.ids_sorted@);
+    lemma_sched_vehicles_lose(s, s1, ty, v);
+    lemma_rd_listing_step(sched_vehicles(s), sched_vehicles(s1), s.tours@, s1.tours@, v);
+}
+/// (2) delete_dummy leaves every component the listing is computed from alone (same_but_dummies: network, grouped id lists) and the
+/// tours: the listing is the same (lemma_sched_vehicles_frame) and still exact
+pub proof fn lemma_dd_listing_exact(s: &Schedule, d: VehicleIdx, m: &Schedule)
+    requires s.dummy_deleted(d, m), s.rs_ok(),
+    ensures sched_vehicles(m) == sched_vehicles(s), rd_listing_exact(m),
+{
+    hide(Schedule::rs_ok);
+    hide(Schedule::transitions_ok);
+    hide(Schedule::dummy_gone);
+    lemma_rd_listing_old(s);
+    assert(m.network == s.network);
+    lemma_sched_vehicles_frame(m, s);
 }
 
 // ---- sums of cached tour costs over listings ---------------------------------------------------------------------------------
@@ -912,8 +1106,9 @@ pub proof fn lemma_rd_vehicle_ok_kept(s: &Schedule, s1: &Schedule, u: VehicleIdx
     assert(tr.wf(&s1.network, s1.tours@));
     assert(tr.has_vehicle(u) <==> s1.vehicles@.contains_key(u) && s1.type_of(u) == ty);
 }
-/// sched_ok again, GIVEN that the listing of the result lists exactly its vehicles (rd_listing_exact: sched_vehicles is
-/// uninterpreted): the network is the same, every remaining vehicle is vehicle_ok, the listing is shorter, and the cost
+/// sched_ok again, given that the listing of the result lists exactly its vehicles (rd_listing_exact: established by
+/// lemma_rd_listing_exact / lemma_dd_listing_exact, no premise of the closure any more): the network is the same, every
+/// remaining vehicle is vehicle_ok, the listing is shorter, and the cost
 /// figure -- reduced by exactly the costs of the tour that went -- still covers the sum of the remaining tours' costs
 pub proof fn lemma_rd_closure_sched(s: &Schedule, v: VehicleIdx, s1: &Schedule)
     requires
@@ -1073,15 +1268,16 @@ pub open spec fn rd_effect(s: &Schedule, v: VehicleIdx, s1: &Schedule) -> bool {
     &&& usage_exact(s1.depot_usage@, &s.network, s1.vehicles@, s1.tours@)
     &&& s1.ids_ok()
 }
-/// CLOSURE, conjunct by conjunct: the result s1 of replace_vehicle_by_dummy(v) satisfies the clauses of rs_ok again (sched_ok
-/// and hence the bundle: given that the listing of the result lists exactly its vehicles), and the listing invariants
+/// CLOSURE, conjunct by conjunct: the result s1 of replace_vehicle_by_dummy(v) satisfies the clauses of rs_ok again (the listing
+/// of the result lists exactly its vehicles, sched_ok, and hence the bundle -- unconditionally), and the listing invariants
 pub open spec fn rd_closed(s: &Schedule, v: VehicleIdx, s1: &Schedule) -> bool {
     &&& s1.ids_ok()
     &&& s1.formations_ok()
     &&& s1.transitions_ok()
     &&& usage_exact(s1.depot_usage@, &s1.network, s1.vehicles@, s1.tours@)
-    &&& (rd_listing_exact(s1) ==> s1.sched_ok())
-    &&& (rd_listing_exact(s1) ==> s1.rs_ok())
+    &&& rd_listing_exact(s1)
+    &&& s1.sched_ok()
+    &&& s1.rs_ok()
     &&& (forall|u: VehicleIdx| u != v && s.vehicles@.contains_key(u) && s.listed_ok(u) ==> #[trigger] s1.listed_ok(u))
     &&& (s.listings_match() && s.listing(s.type_of(v)).no_duplicates() ==> s1.listings_match())
     // the dummy listings
@@ -1100,9 +1296,8 @@ pub proof fn lemma_rd_closure(s: &Schedule, v: VehicleIdx, s1: &Schedule)
     lemma_rd_closure_formations(s, v, s1);
     assert forall|u: VehicleIdx| #[trigger] s1.vehicles@.contains_key(u) implies u is Vehicle by {}
     lemma_rd_closure_transitions(s, v, s1);
-    if rd_listing_exact(s1) {
-        lemma_rd_closure_sched(s, v, s1);
-    }
+    lemma_rd_listing_exact(s, v, s1);
+    lemma_rd_closure_sched(s, v, s1);
     lemma_rd_others_listed(s, v, s1);
     if s.listings_match() && s.listing(s.type_of(v)).no_duplicates() {
         lemma_rd_listings_match(s, v, s1);
@@ -1163,13 +1358,14 @@ pub proof fn lemma_dd_vehicle_ok(s: &Schedule, m: &Schedule, u: VehicleIdx)
     assert(m.type_of(u) == s.type_of(u));
     assert(m.transition_of(u) == s.transition_of(u));
 }
-/// CLOSURE of rs_ok under delete_dummy, GIVEN that the listing of the result lists exactly its vehicles (rd_listing_exact:
-/// sched_vehicles is an uninterpreted function of the whole schedule value, so even here nothing else is known about it)
+/// CLOSURE of rs_ok under delete_dummy (no premise any more: the listing of the result is the listing of `self`, hence exact:
+/// lemma_dd_listing_exact)
 pub proof fn lemma_dd_rs_ok(s: &Schedule, d: VehicleIdx, m: &Schedule)
-    requires s.dummy_deleted(d, m), s.rs_ok(), rd_listing_exact(m),
-    ensures m.rs_ok(),
+    requires s.dummy_deleted(d, m), s.rs_ok(),
+    ensures rd_listing_exact(m), m.rs_ok(),
 {
     hide(Schedule::vehicle_ok);
+    lemma_dd_listing_exact(s, d, m);
     lemma_dd_ids(s, d, m);
     assert(m.network == s.network);
     assert(m.sched_ok()) by {
@@ -1211,7 +1407,7 @@ pub open spec fn dd_closed(s: &Schedule, d: VehicleIdx, m: &Schedule) -> bool {
     &&& (forall|t: VehicleTypeIdx| s.type_known(t) ==> #[trigger] m.type_known(t))
     // the bundles
     &&& (s.sv_ok() ==> m.sv_ok())
-    &&& (s.rs_ok() && rd_listing_exact(m) ==> m.rs_ok())
+    &&& (s.rs_ok() ==> rd_listing_exact(m) && m.rs_ok())
 }
 pub proof fn lemma_dd_closure_one(s: &Schedule, d: VehicleIdx, m: &Schedule)
     requires s.dummy_deleted(d, m),
@@ -1234,7 +1430,7 @@ pub proof fn lemma_dd_closure_one(s: &Schedule, d: VehicleIdx, m: &Schedule)
         assert(sched_types(m) == sched_types(s));
     }
     if s.sv_ok() { lemma_dd_sv_ok(s, d, m); }
-    if s.rs_ok() && rd_listing_exact(m) { lemma_dd_rs_ok(s, d, m); }
+    if s.rs_ok() { lemma_dd_rs_ok(s, d, m); }
 }
 /// CLOSURE from the contract: whatever schedule satisfies the Ok-postcondition of delete_dummy (dummy_deleted) satisfies
 /// dd_closed.  (Stated for all schedules, triggered on the invariant asked about: the result of the function has no name in
@@ -1242,7 +1438,7 @@ pub proof fn lemma_dd_closure_one(s: &Schedule, d: VehicleIdx, m: &Schedule)
 pub proof fn lemma_dd_closure(s: &Schedule, d: VehicleIdx)
     ensures
         forall|m: Schedule| #![trigger m.ids_ok()] #![trigger m.dd_dummy_listing_exact()] #![trigger m.formations_ok()] #![trigger m.transitions_ok()]
-            #![trigger m.listings_match()] #![trigger m.sv_ok()] #![trigger m.rs_ok()]
+            #![trigger m.listings_match()] #![trigger m.sv_ok()] #![trigger m.rs_ok()] #![trigger rd_listing_exact(&m)]
             s.dummy_deleted(d, &m) ==> dd_closed(s, d, &m),
         forall|m: Schedule, x: VehicleIdx| #![trigger m.dummy_listed_ok(x)] #![trigger m.dummy_tour_ok(x)] #![trigger m.listed_ok(x)]
             s.dummy_deleted(d, &m) ==> dd_closed(s, d, &m),
